@@ -53,6 +53,15 @@ func mixAll(vs []int) int {
 }
 
 type ST = fp.StateT[string, int]
+
+var errPoison = errors.New("step written into the caller's slice after the program was built")
+
+// poison overwrites every element of a slice that was handed to a combinator with a failing step.
+func poison(steps []ST) {
+	for i := range steps {
+		steps[i] = func(s string) (fp.Try[int], string) { return try.Failure[int](errPoison), s + "?" }
+	}
+}
 type kont = func(vals ...int) ST
 
 // comb describes one multi-step combinator: how many steps it takes, whether it takes a
@@ -274,7 +283,11 @@ func combs() []comb {
 			}},
 		{name: "statet.Sequence", nmin: 0, nmax: 6, want: all,
 			run: func(st []ST, k kont, s0 string) res[string, string] {
-				return rs(statet.Sequence(st), s0, showInts)
+				// the caller's slice is overwritten after the program is built: the program is what it was built from
+				cp := append([]ST(nil), st...)
+				p := statet.Sequence(cp)
+				poison(cp)
+				return rs(p, s0, showInts)
 			}},
 		{name: "statet.SequenceIterator", nmin: 0, nmax: 6, want: all,
 			run: func(st []ST, k kont, s0 string) res[string, string] {
@@ -328,7 +341,12 @@ func combs() []comb {
 			}},
 		{name: "statet.Concat", nmin: 1, nmax: 6, want: func(v []int, _ int) string { return fmt.Sprint(v[len(v)-1]) },
 			run: func(st []ST, k kont, s0 string) res[string, string] {
-				return rs(statet.Concat(st[0], st[1:]...), s0, showInt)
+				// Concat(start, tail...) receives the caller's slice itself: overwriting it afterwards (a scratch
+				// slice reused for the next pipeline) must not change the program already built
+				cp := append([]ST(nil), st...)
+				p := statet.Concat(cp[0], cp[1:]...)
+				poison(cp)
+				return rs(p, s0, showInt)
 			}},
 	}
 }
